@@ -1,5 +1,6 @@
 import Driver.Util
 import NixModel.Pure.Frame
+import NixModel.Pure.FrameRec
 open Lean Nix Nix.Frame
 
 namespace Driver.C16
@@ -96,6 +97,24 @@ def readOut {α : Type} (s : Option Frame) (r : Except Err α) (j : α → Json)
 
 def outside : Option Frame × Json := (none, bad "C16: input outside the modelled domain")
 
+/-- the presentation object of a line whose rows are handed over as a NumPy structured array:
+    `{"rec": [[field name, field type], …], "mem": [memory rank of each field], "pad": …, "how": …}`;
+    `dflt` are the fields when the object has no "rec" (create_struct: the columns are the fields) -/
+def recOf? (fm : Json) (dflt : Option (List (String × ColType))) (rows : List Row) : Option RecArray :=
+  let fields? : Option (List (String × ColType)) := match fm.getObjVal? "rec" with
+    | .ok j => cols? j
+    | .error _ => dflt
+  match fields? with
+  | none => none
+  | some fs =>
+    let mem : List Nat := match fm.getObjVal? "mem" with
+      | .ok (.arr a) => a.toList.filterMap (fun j => (jInt? j).map Int.toNat)
+      | _ => List.range fs.length
+    if mem.length ≠ fs.length then none
+    else some ⟨(fs.zip mem).map (fun p => (p.1.1, p.1.2, p.2)), rows⟩
+
+def isForm (j : Json) : Bool := match j with | .obj _ => true | _ => false
+
 def handle (s : Option Frame) (j : Json) : Option Frame × Json :=
   match (jArr j).toList with
   | [Json.str "create_dict", cs, d] =>
@@ -119,6 +138,34 @@ def handle (s : Option Frame) (j : Json) : Option Frame × Json :=
     | some cs, some d =>
       if rowsOutside true (cs.map (·.2)) d then outside else created (createStruct cs d)
     | _, _ => (s, bad "C16: create_struct")
+  | [Json.str "create_dict", cs, d, fm] =>
+    match cols? cs, rows? d with
+    | some cs, some d =>
+      match recOf? fm none d with
+      | some r => if rowsOutside true (cs.map (·.2)) d then outside else created (createDictRec cs r)
+      | none => (s, bad "C16: create_dict form")
+    | _, _ => (s, bad "C16: create_dict")
+  | [Json.str "create_names_types", ns, ts, d, fm] =>
+    match listOf? str? ns, listOf? ty? ts, rows? d with
+    | some ns, some ts, some d =>
+      match recOf? fm none d with
+      | some r => if rowsOutside true ts d then outside else created (createNamesTypesRec ns ts r)
+      | none => (s, bad "C16: create_names_types form")
+    | _, _, _ => (s, bad "C16: create_names_types")
+  | [Json.str "create_names_data", ns, d, fm] =>
+    match listOf? str? ns, rows? d with
+    | some ns, some d =>
+      match recOf? fm none d with
+      | some r => if rowsOutside true r.types d then outside else created (createNamesRec ns r)
+      | none => (s, bad "C16: create_names_data form")
+    | _, _ => (s, bad "C16: create_names_data")
+  | [Json.str "create_struct", cs, d, fm] =>
+    match cols? cs, rows? d with
+    | some cs, some d =>
+      match recOf? fm (some cs) d with
+      | some r => if rowsOutside true (cs.map (·.2)) d then outside else created (createStructRec r)
+      | none => (s, bad "C16: create_struct form")
+    | _, _ => (s, bad "C16: create_struct")
   | op :: args =>
     match s with
     | none => (s, bad "C16: no frame")
@@ -134,6 +181,13 @@ def handle (s : Option Frame) (j : Json) : Option Frame × Json :=
         match rows? d with
         | some d => if rowsOutside false f.types d then outside else wrote (step f (.appendRows d))
         | none => (s, bad "C16: append_rows")
+      | Json.str "append_rows", [d, fm] =>
+        match rows? d with
+        | some d =>
+          match recOf? fm none d with
+          | some r => if rowsOutside false f.types d then outside else wrote (appendRowsRec f r)
+          | none => (s, bad "C16: append_rows form")
+        | none => (s, bad "C16: append_rows")
       | Json.str "append_column", [c, Json.str n, t] =>
         match row? c, optOf? ty? t with
         | some c, some t =>
@@ -144,6 +198,20 @@ def handle (s : Option Frame) (j : Json) : Option Frame × Json :=
         match rows? d, ints? ix with
         | some d, some ix => if rowsOutside false f.types d then outside else wrote (step f (.writeRows d ix))
         | _, _ => (s, bad "C16: write_rows")
+      | Json.str "write_rows", [d, ix, fm] =>
+        match rows? d, ints? ix with
+        | some d, some ix =>
+          match recOf? fm none d with
+          | some r => if rowsOutside false f.types d then outside else wrote (writeRowsRec f r ix)
+          | none => (s, bad "C16: write_rows form")
+        | _, _ => (s, bad "C16: write_rows")
+      | Json.str "write_row_flat", [d, ix, fm] =>
+        match row? d, ints? ix with
+        | some (Val.str _ :: _), _ => outside
+        | some d, some ix =>
+          if !isForm fm then (s, bad "C16: write_row_flat form")
+          else if rowsOutside false f.types [d] then outside else wrote (writeRowVoid f d ix)
+        | _, _ => (s, bad "C16: write_row_flat")
       | Json.str "write_row_flat", [d, ix] =>
         match row? d, ints? ix with
         | some (Val.str _ :: _), _ => outside
